@@ -19,7 +19,8 @@ func TestMain(m *testing.M) { pk.Main(m) }
 // Edge: `From` imports one item of the given kind from `To`.
 type Edge struct {
 	From, To string
-	Kind     string // ok-fn ok-global ok-type private-fn private-global missing-item wrong-kind-type wrong-kind-value missing-module
+	Kind     string // ok-fn ok-global ok-type private-fn private-global missing-item wrong-kind-type wrong-kind-value missing-module reimport-fn reimport-global reimport-type
+	Of       string `json:",omitempty"` // reimport-*: the module whose pub item `To` has merely imported itself
 }
 
 type Graph struct {
@@ -32,7 +33,7 @@ type Graph struct {
 func (g Graph) String() string {
 	parts := []string{}
 	for _, e := range g.Edges {
-		parts = append(parts, fmt.Sprintf("%s-[%s]->%s", e.From, e.Kind, e.To))
+		parts = append(parts, fmt.Sprintf("%s-[%s%s]->%s", e.From, e.Kind, map[bool]string{true: " of " + e.Of, false: ""}[e.Of != ""], e.To))
 	}
 	s := g.Name + ": " + strings.Join(parts, " ")
 	if g.Singleton {
@@ -41,7 +42,8 @@ func (g Graph) String() string {
 	return s
 }
 
-var faultKinds = map[string]bool{"private-fn": true, "private-global": true, "missing-item": true, "wrong-kind-type": true, "wrong-kind-value": true, "missing-module": true}
+var faultKinds = map[string]bool{"private-fn": true, "private-global": true, "missing-item": true, "wrong-kind-type": true, "wrong-kind-value": true, "missing-module": true,
+	"reimport-fn": true, "reimport-global": true, "reimport-type": true}
 
 func (g Graph) faulty() bool {
 	for _, e := range g.Edges {
@@ -135,6 +137,13 @@ func buildModule(n string, g Graph) *hs.Module {
 			m.Imports = append(m.Imports, hs.Import{From: to, Items: []hs.ImportItem{{Name: "T_" + to}}})
 		case "missing-module":
 			m.Imports = append(m.Imports, hs.Import{From: "zz", Items: []hs.ImportItem{{Name: "nope"}}})
+		// an item that `to` has only imported itself (from e.Of) is not one of `to`'s pub items
+		case "reimport-fn":
+			m.Imports = append(m.Imports, hs.Import{From: to, Items: []hs.ImportItem{{Name: "f_" + e.Of}}})
+		case "reimport-global":
+			m.Imports = append(m.Imports, hs.Import{From: to, Items: []hs.ImportItem{{Name: "gx_" + e.Of}}})
+		case "reimport-type":
+			m.Imports = append(m.Imports, hs.Import{From: to, Items: []hs.ImportItem{{Kind: "type", Name: "T_" + e.Of}}})
 		}
 	}
 	// same-named items in every module: globals x, y and function helper (all private)
@@ -172,6 +181,9 @@ func buildModule(n string, g Graph) *hs.Module {
 	for _, e := range g.Edges {
 		if e.From == n {
 			linked[e.To] = true
+			if e.Of != "" {
+				linked[e.Of] = true
+			}
 		}
 	}
 	for _, o := range append([]string{"main"}, g.Mods...) {
@@ -360,6 +372,29 @@ func graphs() []Graph {
 					es = append(es, Edge{From: e[0], To: e[1], Kind: kind})
 				}
 				out = append(out, Graph{Name: sh.name, Mods: sh.mods, Edges: es})
+			}
+		}
+		// ... and every re-import: X imports from Y an item that Y itself only imported from Z
+		for xi, xy := range sh.edges {
+			for yi, yz := range sh.edges {
+				if xi == yi || xy[1] != yz[0] || xy[0] == yz[1] {
+					continue
+				}
+				for ki, k := range []string{"fn", "global", "type"} {
+					es := []Edge{}
+					for i, e := range sh.edges {
+						ed := Edge{From: e[0], To: e[1], Kind: okKinds[i%2]}
+						if i == yi {
+							ed.Kind = "ok-" + k
+						}
+						if i == xi {
+							ed.Kind, ed.Of = "reimport-"+k, yz[1]
+						}
+						es = append(es, ed)
+					}
+					_ = ki
+					out = append(out, Graph{Name: sh.name, Mods: sh.mods, Edges: es})
+				}
 			}
 		}
 	}
